@@ -253,11 +253,11 @@ func c12spawn(p *core.Prog, sp *ssa.Function) (bool, string) {
 	}
 	// every return returns the child
 	retOK := true
-	core.Instrs(sp, func(ins ssa.Instruction) {
-		if r, ok := ins.(*ssa.Return); ok && core.Resolve(core.RetVals(r)[0]) != ssa.Value(child) {
+	for _, rcase := range core.ReturnCases(sp) {
+		if !sameOrNilAlias(rcase, rcase.Vals[0], child) {
 			retOK = false
 		}
-	})
+	}
 	if !retOK {
 		return false, "Spawn does not return the newly created child on every path"
 	}
